@@ -19,6 +19,10 @@ func init() {
 		Rules: []rule{
 			{"C15.auth-dominates", "every dispatch/store call in ServeHTTP lies behind the exact Authorization comparison (or no value configured)", 6, c15Auth},
 			{"C15.readonly", "writes and body reads only behind validateWritable()==nil; validateWritable passes only when writable", 5, c15Readonly},
+			{"C15.flag-defaults", "servers are read-only unless --writeable is given", 2, func(c *Ctx) {
+				c.flagDefaults(map[string]flagSpec{"writeable": {"false", ".writable", 2}})
+			}},
+			{"C15.plumbing", "the --writeable and authorization options reach the handler fields that are tested", 8, c15Plumbing},
 			{"C15.put-verifies", "uploaded chunk is built by the verifying constructor and stored only if that succeeded", 3, c15PutVerifies},
 			{"C15.confinement", "only a parsed ChunkID / path.Base name reaches the store; file names are built from the id", 8, c15Confinement},
 		},
@@ -382,5 +386,64 @@ func c15Confinement(c *Ctx) {
 				}
 			}
 		})
+	}
+}
+
+// c15Plumbing: the switches reach the handler.  The commands pass opt.writable and opt.auth (and
+// nothing else) to the handler constructors, and the constructors store these parameters in
+// HTTPHandlerBase.writable / .authorization - the fields the ServeHTTP rules test.
+func c15Plumbing(c *Ctx) {
+	n := 0
+	for _, fn := range c.Funcs {
+		for _, call := range calls(fn, named("desync.NewHTTPHandler", "desync.NewHTTPIndexHandler")) {
+			n++
+			a := call.Common().Args
+			w, auth := a[1], a[len(a)-1]
+			key := fnKey(fn) + ":" + callee(call)
+			okW := onlyOrigins(w, func(o string) bool { return strings.HasPrefix(o, "field:") && strings.HasSuffix(o, ".writable") })
+			c.verdict(okW, key+":writable", call.Pos(), "the writable argument is the --writeable option", fmt.Sprintf("the writable argument of the handler does not come from the --writeable option only (origins %v): the server may accept uploads although started read-only", origins(w)))
+			okA := hasOrigin(auth, func(o string) bool { return strings.HasPrefix(o, "field:") && strings.HasSuffix(o, ".auth") })
+			c.verdict(okA, key+":auth", call.Pos(), "the authorization argument is the configured token", fmt.Sprintf("the authorization argument of the handler is not the configured token (origins %v): the server would accept requests without it", origins(auth)))
+		}
+	}
+	for _, key := range []string{"NewHTTPHandler", "NewHTTPIndexHandler"} {
+		fn := c.mustFn(key)
+		if fn == nil {
+			continue
+		}
+		var pw, pa *ssa.Parameter
+		for _, p := range fn.Params {
+			switch p.Name() {
+			case "writable":
+				pw = p
+			case "auth":
+				pa = p
+			}
+		}
+		seen := map[string]bool{}
+		instrs(fn, func(_ *ssa.BasicBlock, _ int, ins ssa.Instruction) {
+			st, ok := ins.(*ssa.Store)
+			if !ok {
+				return
+			}
+			fa, ok := st.Addr.(*ssa.FieldAddr)
+			if !ok {
+				return
+			}
+			switch fieldOf(fa) {
+			case "HTTPHandlerBase.writable":
+				seen["writable"] = true
+				c.verdict(pw != nil && isParam(st.Val, pw), key+":writable-field", st.Pos(), "HTTPHandlerBase.writable <- parameter writable", "HTTPHandlerBase.writable is not filled from the writable parameter")
+			case "HTTPHandlerBase.authorization":
+				seen["auth"] = true
+				c.verdict(pa != nil && isParam(st.Val, pa), key+":authorization-field", st.Pos(), "HTTPHandlerBase.authorization <- parameter auth", "HTTPHandlerBase.authorization is not filled from the auth parameter")
+			}
+		})
+		if !seen["writable"] || !seen["auth"] {
+			c.bad(key+":fields", fn.Pos(), "the constructor does not set HTTPHandlerBase.writable and .authorization (set: %v)", seen)
+		}
+	}
+	if n < 2 {
+		c.bad("plumbing", token.NoPos, "found %d handler constructions in the commands, expected 2", n)
 	}
 }
